@@ -237,31 +237,36 @@ def drive_siblings(ctx):
     fu = repo.func(SOLVER, "TDGLSolver.update_applied_vector_potential")
     fe = repo.func(SOLVER, "TDGLSolver.update_epsilon")
 
-    def call_of(fn, callee):
-        cs = [n for n in own_nodes(fn) if isinstance(n, ast.Call) and norm(n.func) == callee]
-        return cs
+    from ..dataflow import expansions
 
-    def pos_args(c):
-        return [norm(a) for a in c.args]
-    c0 = call_of(fi.node, "self.applied_vector_potential")
-    c1 = call_of(fu.node, "self.applied_vector_potential")
-    ok = len(c0) == 1 and len(c1) == 1 and pos_args(c0[0]) == pos_args(c1[0]) == ["self.edge_centers[:, 0]", "self.edge_centers[:, 1]", "self.z0"] \
-        and [k.arg for k in c1[0].keywords] == ["t"] and norm(c1[0].keywords[0].value) == "time"
-    rets = [n for n in own_nodes(fu.node) if isinstance(n, ast.Return)]
-    rname = norm(rets[0].value) if len(rets) == 1 else "?"
-    from ..src import rename_id
-    steps = [rename_id(norm(n.value), rname, "X") for n in own_nodes(fu.node) if isinstance(n, ast.Assign) and norm(n.targets[0]) == rname]
-    scaled1 = " ; ".join(steps)
-    init_scaled = [rename_id(norm(n.value), n.targets[0].id, "X") for n in own_nodes(fi.node)
-                   if isinstance(n, ast.Assign) and len(n.targets) == 1 and isinstance(n.targets[0], ast.Name) and "A_scale" in norm(n.value)]
-    ok1 = len(steps) >= 2 and steps[0].startswith("self.applied_vector_potential(") and \
-        sum(1 for t in steps if t in ("self.A_scale * X[:, :2]", "X[:, :2] * self.A_scale")) == 1 and \
-        all(t.startswith("self.applied_vector_potential(") or t in ("self.A_scale * X[:, :2]", "X[:, :2] * self.A_scale", "cupy.asarray(X)") for t in steps)
-    from ..dataflow import canon_text
-    ok0 = [canon_text(t) for t in init_scaled] == [canon_text("self.A_scale * np.asarray(X)[:, :2]")]
+    def describe(fn, expr, at):
+        """every way the value can be computed, reduced to what matters: where A is evaluated, the scale, the components kept"""
+        out = []
+        for e in expansions(fn, expr, at):
+            calls = [c for c in ast.walk(e) if isinstance(c, ast.Call) and norm(c.func) == "self.applied_vector_potential"]
+            if len({norm(c) for c in calls}) != 1:
+                out.append({"error": f"{len(calls)} evaluations of the potential in `{norm(e)[:80]}`"})
+                continue
+            c = calls[0]
+            inside = lambda node: any(x is c for x in ast.walk(node))
+            scaled = [b_ for b_ in ast.walk(e) if isinstance(b_, ast.BinOp) and isinstance(b_.op, ast.Mult)
+                      and ((norm(b_.left) == "self.A_scale" and inside(b_.right)) or (norm(b_.right) == "self.A_scale" and inside(b_.left)))]
+            other_scale = [norm(b_)[:60] for b_ in ast.walk(e) if isinstance(b_, ast.BinOp) and isinstance(b_.op, (ast.Mult, ast.Div)) and inside(b_)
+                           and b_ not in scaled]
+            xy = [s_ for s_ in ast.walk(e) if isinstance(s_, ast.Subscript) and inside(s_.value) and norm(s_.slice).strip("()").replace(" ", "") == ":,:2"]
+            out.append({"at": [norm(a) for a in c.args], "keywords": sorted(k.arg or "**" for k in c.keywords),
+                        "time": [norm(k.value) for k in c.keywords if k.arg == "t"],
+                        "scaled_once": len(scaled) == 1 and not other_scale, "xy": len(xy) == 1})
+        return out
+    want_at = ["self.edge_centers[:, 0]", "self.edge_centers[:, 1]", "self.z0"]
+    rets = [n for n in own_nodes(fu.node) if isinstance(n, ast.Return) and n.value is not None]
+    d1 = [d for r in rets for d in describe(fu.node, r.value, r)]
+    ok1 = bool(d1) and all(d.get("at") == want_at and d.get("time") == ["time"] and d.get("scaled_once") and d.get("xy") for d in d1)
+    stores0 = [n for n in own_nodes(fi.node) if isinstance(n, ast.Assign) and any(norm(t) == "self.current_A_applied" for t in n.targets)]
+    d0 = [d for st in stores0 for d in describe(fi.node, st.value, st)]
+    ok0 = bool(d0) and all(d.get("at") == want_at and d.get("scaled_once") and d.get("xy") for d in d0)
     ctx.ob("R08.5", "update_applied_vector_potential evaluates A at (edge centres, z0, t=time) and scales the x,y components by A_scale, like __init__",
-           ok and ok0 and ok1, detail={"init_call": [norm(c) for c in c0], "update_call": [norm(c) for c in c1], "init_scaled": init_scaled,
-                                        "update_returns": scaled1[:160]},
+           ok0 and ok1, detail={"init": d0[:3], "update": d1[:3]},
            where=fu.fq, construct="time-dependent vector potential evaluation", loc=loc(fu, fu.node),
            message="the time-dependent vector potential is evaluated or scaled differently from the initial one",
            consequence="a time-dependent applied field jumps by a unit-dependent factor at the first step (A(t) and A(0) use different scales or points)")
@@ -276,6 +281,15 @@ def drive_siblings(ctx):
                     for g in comp.generators:
                         if isinstance(g.target, ast.Name) and g.target.id == a.id:
                             return f"each({norm(g.iter)})"
+            # the same loop written as a statement: `for r in X` / `for i, r in enumerate(X)`
+            for lp in ast.walk(fn):
+                if isinstance(lp, ast.For) and any(x is c for x in ast.walk(lp)):
+                    it, tg = lp.iter, lp.target
+                    if isinstance(it, ast.Call) and norm(it.func) == "enumerate" and it.args and isinstance(tg, ast.Tuple) and len(tg.elts) == 2:
+                        it, tg = it.args[0], tg.elts[1]
+                    if isinstance(tg, ast.Name) and tg.id == a.id:
+                        from ..dataflow import expanded_text
+                        return f"each({expanded_text(fn, it)})"
         return norm(a)
     a0 = sorted(point_arg(fi.node, c) for c in e0 if c.args)
     a1 = sorted(point_arg(fe.node, c) for c in e1 if c.args)
